@@ -328,7 +328,7 @@ func (p *parser) resolveModuleImport(importStmt *ast.ImportStmt) {
 		case *ast.FuncDecl:
 			aliases = append(aliases, toInterfaceSlice[*ast.FuncAlias, ast.Alias](decl.Aliases)...)
 			if ast.IsOperatorOverload(decl) {
-				p.insertOperatorOverload(decl)
+				p.insertOperatorOverloadAt(decl, tok.Range)
 			}
 		case *ast.StructDecl:
 			aliases = append(aliases, toInterfaceSlice[*ast.StructAlias, ast.Alias](decl.Aliases)...)
@@ -464,6 +464,12 @@ func (p *parser) addAliases(aliases []ast.Alias, errRange token.Range) {
 }
 
 func (p *parser) insertOperatorOverload(decl *ast.FuncDecl) {
+	p.insertOperatorOverloadAt(decl, decl.NameTok.Range)
+}
+
+// inserts the operator overload and reports errors at errRange
+// which must lie in the module that is being parsed (unlike decl, which might be imported)
+func (p *parser) insertOperatorOverloadAt(decl *ast.FuncDecl, errRange token.Range) {
 	overloads := p.Operators[decl.Operator]
 
 	for _, overload := range overloads {
@@ -473,7 +479,7 @@ func (p *parser) insertOperatorOverload(decl *ast.FuncDecl) {
 				continue
 			}
 
-			p.err(ddperror.SEM_OVERLOAD_ALREADY_DEFINED, decl.NameTok.Range, fmt.Sprintf("Der Operator '%s' ist für diese Parametertypen bereits überladen", decl.Operator))
+			p.err(ddperror.SEM_OVERLOAD_ALREADY_DEFINED, errRange, fmt.Sprintf("Der Operator '%s' ist für diese Parametertypen bereits überladen", decl.Operator))
 			return
 		}
 	}
